@@ -290,6 +290,26 @@ def oracle(ctx, kind, p):
             added = len(nxt.triples) - len(cur.triples)
             if added != pushes:
                 ctx.fail('ib:top-triples!=nested-nodes', detail=dict(det, added=added, pushes=pushes))
+            if cls in ('decoded', 'wide') and g.top == g.triples[0][0] and all(o in ('re', 'ra') for o in prog[:i]) \
+                    and len(set(cur.triples)) == len(cur.triples):
+                # on a graph that came straight from a text (plus reifications, which keep the markers
+                # in step with the layout) the nested nodes are those of the text it is written as: one
+                # (parent, TOP, child) per node opened inside another (docstring example)
+                okc, tree_c = ctx.call(layout.configure, cur, model=model, clause='configure(before ib)')
+                if okc:
+                    nested = []
+
+                    def walk(nd):
+                        for r_, t_ in nd[1]:
+                            if isinstance(t_, tuple):
+                                nested.append((nd[0], tr_, t_[0]))
+                                walk(t_)
+                    walk(tree_c.node)
+                    tops = [t for t in nxt.triples if t[1] == tr_ and t not in cur.triples]
+                    ctx.count('ib_vs_written_nesting')
+                    if sorted(tops, key=repr) != sorted(nested, key=repr):
+                        ctx.fail('ib:top-triples!=nesting-of-the-written-text',
+                                 detail=dict(det, top_triples=tops, nesting=nested))
             orig = list(cur.triples)
             j = 0
             okk = True
